@@ -8,7 +8,11 @@ from concurrent.futures import ThreadPoolExecutor
 FILE = sys.argv[2]
 src = open('/repo/' + FILE).read().split('\n')
 def frange(name):
-    s = next(i for i,l in enumerate(src) if l.lstrip().startswith('def %s(' % name))
+    start = 0
+    if '.' in name:
+        cls, name = name.split('.', 1)
+        start = next(i for i, l in enumerate(src) if l.startswith('class %s' % cls))
+    s = next(i for i,l in enumerate(src) if i >= start and l.lstrip().startswith('def %s(' % name))
     ind = len(src[s]) - len(src[s].lstrip())
     e = next((i for i in range(s+1, len(src)) if src[i].strip() and not src[i].lstrip().startswith('#') and len(src[i]) - len(src[i].lstrip()) <= ind and not src[i].lstrip().startswith(')')), len(src))
     return s, e
